@@ -158,17 +158,18 @@ fn io_write_mismatch() {
 }
 
 // the area selects the image: a write to %M / %I never touches %Q
-// @unit id=io.write.areas props=C07 tier=quick kind=bounded bound="image<=6 bytes, offset<=7; value full" timeout=900 fn=IoInterface::write,IoInterface::area_mut
+// @unit id=io.write.areas props=C07 tier=thorough kind=bounded bound="image<=6 bytes, offset<=7; value full" timeout=900 fn=IoInterface::write,IoInterface::area_mut
 #[kani::proof]
 #[kani::stub(std::hash::RandomState::new, fixed_rs)]
 #[kani::unwind(18)]
 fn io_write_areas() {
-    let (i0, q0, m0) = (any_image(), vec![0xA5u8, 0x5A], any_image());
+    let to_memory: bool = kani::any();
+    // only the written area's image is symbolic
+    let (i0, q0, m0) = if to_memory { (vec![0x11u8], vec![0xA5u8, 0x5A], any_image()) } else { (any_image(), vec![0xA5u8, 0x5A], vec![0x11u8]) };
     let mut io = mk_io(i0.clone(), q0.clone(), m0.clone());
     let byte: u32 = kani::any();
     kani::assume(byte <= MAXB);
     let v: u8 = kani::any();
-    let to_memory: bool = kani::any();
     let area = if to_memory { IoArea::Memory } else { IoArea::Input };
     let r = io.write(&addr(area, IoSize::Byte, byte, 0), Value::Byte(v));
     let ok = matches!(&r, Ok(()));
@@ -296,15 +297,16 @@ fn io_coerce_narrowing() {
 // C07-S / C08: IoSafeState::apply -- afterwards every configured address holds its safe value
 // ---------------------------------------------------------------------------------------------
 
-// @unit id=io.safe_state.apply props=C07,C08 tier=quick kind=bounded bound="2 entries (BYTE, WORD), image<=6 bytes, offsets<=7" timeout=1200 fn=IoSafeState::apply,IoInterface::write
+// @unit id=io.safe_state.apply props=C07,C08 tier=quick kind=bounded bound="2 entries (BYTE, WORD), 3-byte image, offsets<=3 (inside, straddling, beyond)" timeout=1200 fn=IoSafeState::apply,IoInterface::write
 #[kani::proof]
 #[kani::stub(std::hash::RandomState::new, fixed_rs)]
 #[kani::unwind(18)]
 fn io_safe_state_apply() {
-    let (i0, q0, m0) = (vec![0xA5u8, 0x5A], any_image(), vec![0x3Cu8]);
+    let img: [u8; 3] = kani::any();
+    let (i0, q0, m0) = (vec![0xA5u8, 0x5A], img.to_vec(), vec![0x3Cu8]);
     let mut io = mk_io(i0.clone(), q0.clone(), m0.clone());
     let (b1, b2): (u32, u32) = (kani::any(), kani::any());
-    kani::assume(b1 <= MAXB && b2 <= MAXB);
+    kani::assume(b1 <= 3 && b2 <= 3);
     let (v1, v2): (u8, u16) = (kani::any(), kani::any());
     let a1 = addr(IoArea::Output, IoSize::Byte, b1, 0);
     let a2 = addr(IoArea::Output, IoSize::Word, b2, 0);
